@@ -71,6 +71,10 @@ def cargo_build(timeout=3000):
         src = os.path.join(BUILD, "harness-target", "release", "hcimpl")
         if rc == 0 and os.path.exists(src):
             HCIMPL = _private_copy(src)
+        # measurement mode only (tools/tiecov.sh): run the streams through a coverage-instrumented build of the same
+        # harness; never set by a registered command
+        if rc == 0 and os.environ.get("HV_IMPL_OVERRIDE"):
+            HCIMPL = os.environ["HV_IMPL_OVERRIDE"]
     return rc == 0, out
 
 
